@@ -11,6 +11,7 @@ feat = None; tc = None
 a = sys.argv[3:]
 if "--features" in a: feat = a[a.index("--features") + 1]
 if "--toolchain" in a: tc = a[a.index("--toolchain") + 1]
+rel = "--release" in a   # the demonstration needs an optimised build (the existing suite is still run as prescribed, in debug)
 W = "/tmp/confirm_wt"
 TGT = "/tmp/confirm_target"
 env = dict(os.environ, CARGO_TARGET_DIR=TGT, CARGO_NET_OFFLINE="true")
@@ -18,7 +19,8 @@ subprocess.run(["git", "-C", "/repo", "worktree", "remove", "--force", W], captu
 subprocess.run(["git", "-C", "/repo", "worktree", "prune"], capture_output=True)
 subprocess.run(["git", "-C", "/repo", "worktree", "add", "-q", "--detach", W, "HEAD"], check=True)
 def cargo(*args):
-    cmd = ["cargo"] + ([f"+{tc}"] if tc else []) + list(args) + ["--offline"] + (["--features", feat] if feat else [])
+    extra = ["--release"] if (rel and "demo_seed" in args) else []
+    cmd = ["cargo"] + ([f"+{tc}"] if tc else []) + list(args) + extra + ["--offline"] + (["--features", feat] if feat else [])
     r = subprocess.run(cmd, cwd=W, env=env, capture_output=True, text=True)
     return r.returncode, (r.stdout + r.stderr)[-2500:]
 ok = True
